@@ -152,9 +152,18 @@ class Scalars(Harness):
             zero = (xb == 0)
             if zero is True or (not isinstance(zero, bool) and bool(zero)):
                 return err_is(res, '#DIV/0!')
+        # "dates act as their serial": the serial the operators use is the Excel 1900 serial (exact for whole days,
+        # within 1e-8 days with a time part)
+        serial_cl = []
+        for kind, dval, sval in ((ka, na, xa), (kb, nb, xb)):
+            if kind == 'date':
+                ex = pool.serial_real(dval)
+                sr = _floatval_nofork(sval)
+                tol = z3.RealVal('1/100000000')
+                serial_cl.append(mkbool(z3.simplify(z3.And(sr - ex <= tol, ex - sr <= tol))))
         want = PYOP[op](xa, xb)
         must_date = (ka == 'date' and kb == 'num' and op in '+-' and b is not None) or (ka == 'num' and kb == 'date' and op == '+' and a is not None)
-        clauses = []
+        clauses = list(serial_cl)
         for o in out:
             clauses.append(self._value_ok(env, ut, o, want, must_date))
         if len(out) == 2:
